@@ -1,6 +1,7 @@
 """C06 - stdio outbound framing: one message, one line, in order, content preserved."""
 from __future__ import annotations
 
+import asyncio
 import json
 from typing import Any, Dict, List, Tuple
 
@@ -371,6 +372,74 @@ def exit_right_after_send_tier(ctx):
                    sample={"case": case, "accepted": len(want), "reached_child": len(got)})
 
 
+def reentered_client_tier(ctx):
+    """One StdioClient object used as a context manager several times (a reconnect): every life is judged like a first one
+    - how a life ended (write stream closed by the application first, or the context simply left) is the dimension."""
+    import importlib
+    from chuk_mcp.transports.stdio.parameters import StdioParameters
+    from vf.recorders import OpenProcessPatch, ScriptedProcess
+    from vf.vloop import run_virtual
+    SC = importlib.import_module("chuk_mcp.transports.stdio.stdio_client")
+    for k in range(8 if ctx.tier == "quick" else 64):
+        if not ctx.mine():
+            continue
+        lives = 2 + k % 2
+        close_first = bool(k & 2)            # the application closes its write end before leaving (every life but the last)
+        n = (1, 3, 7, 12)[(k // 4) % 4]
+        per_life = []
+        for life in range(lives):
+            seq = [(GOOD_SHAPES[(k + life + i) % len(GOOD_SHAPES)], PAYLOAD_STRINGS[(k + i) % len(PAYLOAD_STRINGS)], IDS[i % len(IDS)])
+                   for i in range(n)]
+            objs, expected = [], []
+            for spec in seq:
+                try:
+                    o, e = mk(tuple(spec))
+                except Exception:
+                    continue
+                objs.append(o)
+                expected.append(e)
+            per_life.append((objs, expected))
+        case = {"reentered_client": True, "lives": lives, "close_write_first": close_first, "n": n, "k": k}
+
+        async def main():
+            outs = []
+            with OpenProcessPatch(lambda command, **kw: ScriptedProcess([], hold_open=True)) as patch:
+                client = SC.StdioClient(StdioParameters(command="x"))
+                for life, (objs, _) in enumerate(per_life):
+                    async with client:
+                        r, w = client.get_streams()
+                        for o in objs:
+                            await w.send(o)
+                        await asyncio.sleep(0.05)
+                        if close_first and life < lives - 1:
+                            await w.aclose()
+                            await asyncio.sleep(0.05)
+                    outs.append(patch.spawned[life].stdin_bytes())
+            return outs
+        try:
+            outs, _ = run_virtual(main, max_iterations=2_000_000)
+        except Exception as e:  # noqa
+            ctx.violation("writer_crashed_harness", f"re-entered client object: {e!r}", case)
+            continue
+        ctx.count("sessions", lives)
+        ctx.count("reentered_client_lives", lives)
+        shape = []
+        for life, data in enumerate(outs):
+            got = []
+            for ln in data.split(b"\n")[:-1]:
+                try:
+                    got.append(tagged(json.loads(ln.decode("utf-8"))))
+                except Exception:
+                    got.append(("UNDECODABLE", ln[:60]))
+            want = [tagged(e) for e in per_life[life][1]]
+            if got != want:
+                mech = "message_lost" if len(got) < len(want) else "content_altered"
+                ctx.violation(mech, f"life {life + 1} of {lives} of one StdioClient object: {len(want)} messages accepted on the "
+                              f"write stream, {len(got)} lines reached the child", case)
+            shape.append([len(got), len(want)])
+        ctx.record(case, shape=shape, nontrivial=True, cls="reentered_client", sample={"case": case, "lines_per_life": shape})
+
+
 def two_writer_tier(ctx):
     """The library writes to the child's stdin from two places: the writer task (messages accepted on the write
     stream) and the reader (the error it answers a batch with at a version without batching).  With large messages
@@ -516,6 +585,7 @@ def run(ctx):
         exec_case(ctx, seq)
     two_writer_tier(ctx)
     exit_right_after_send_tier(ctx)
+    reentered_client_tier(ctx)
     if ctx.tier == "thorough" and ctx.shard[0] == 0:
         real_child_tier(ctx)
     ctx.require_reached("sessions")
@@ -528,6 +598,10 @@ def replay(ctx, case):
     if case.get("exit_right_after_send"):
         ctx.notes.append("regenerated from the seed: re-running that tier")
         exit_right_after_send_tier(ctx)
+        return
+    if case.get("reentered_client"):
+        ctx.notes.append("regenerated from the seed: re-running that tier")
+        reentered_client_tier(ctx)
         return
     if case.get("two_writers"):
         ctx.notes.append("two-writer cases are regenerated from the seed: re-running that tier")
